@@ -80,6 +80,26 @@ def limit_part(ctx):
                         st_undecided += 1
                         continue
                     if any(abs(x - y) > 1e-9 * (abs(y) + 1) for x, y in zip(ra, rb)):
+                        # some raw moment still moves between n = 150 and 300.  If the central moment computed from the far
+                        # raw moments is huge and keeps growing, the quantity diverges and must be reported as infinite.
+                        def cen_of(r_, k_):
+                            m_ = [1.0] + r_
+                            return sum(comb(k_, j) * m_[j] * (-m_[1]) ** (k_ - j) for j in range(k_ + 1))
+                        for kind in ("central", "cumulant"):
+                            for k, vals in ao.get(kind, {}).items():
+                                if int(k) == 4 and kind == "cumulant":
+                                    continue
+                                try:
+                                    ca, cb = cen_of(ra, int(k)), cen_of(rb, int(k))
+                                except OverflowError:
+                                    continue
+                                if abs(cb) > 1e12 and abs(cb) > 1e6 * abs(ca) and abs(ra[0] - rb[0]) <= 1e-9 * (abs(rb[0]) + 1):
+                                    st_checked += 1
+                                    if not vals[pi].get("inf"):
+                                        st_bad += 1
+                                        run.violation({it["id"], f"{it['id']}:after:{kind}{k}:{g}"},
+                                                      {"clause": f"{kind} moment after the loop diverges (far terms {ca:.3g}, {cb:.3g}) but is not reported as infinite",
+                                                       "program": it["text"], "goal": g, "order": k, "reported": vals[pi]})
                         st_undecided += 1
                         continue
                     m = [1.0] + rb
@@ -129,6 +149,7 @@ def main(tier, seed):
     # loops that stop only with probability < 1 (the conversion to central moments is not linear in 1/P(stop))
     shapes += [
         ("goal_over_constant", "x = -2\nk = 2\nstop = 0\nwhile stop == 0:\n    x = x {1/2} 1/2*x + 3/2\n    stop = Bernoulli(1/5)\nend\n", ["k*x", "x", "k"], {}),
+        ("heavy_tail_exit", "x = 1\nstop = 0\nwhile stop == 0:\n    x = 3*x/2\n    stop = Bernoulli(1/2)\nend\n", ["x", "stop"], {}),
         ("stops_with_prob_half", "d = Bernoulli(1/2)\nstop = 0\nx = 0\nwhile stop == 0:\n    x = x + 1\n    if d == 1:\n        stop = Bernoulli(1/3)\n    end\nend\n",
          ["x", "stop"], {}),
         ("exit_on_draw", "stop = 0\nx = 0\nwhile stop == 0:\n    x = DiscreteUniform(0, 3)\n    if x >= 2:\n        stop = Bernoulli(1/2)\n    end\nend\n",
@@ -140,7 +161,7 @@ def main(tier, seed):
             decl = ""
         items.append({"id": "gshape-" + name, "text": decl + text, "T": None, "goals": goals, "points": [{}],
                       "origin": "fixed guarded shape " + name, "types": types})
-        if name in ("stops_with_prob_half", "body_is_one_if"):
+        if name in ("stops_with_prob_half", "body_is_one_if", "heavy_tail_exit"):
             # central moments / cumulants after the loop through the goal handlers (four powers of the goal: slower)
             items[-1].update(want_extra=["after_stats"], timeout=400)
     gen_items = C.generated(seed, 20 if quick else 100, profile={"guard": "flag"}, ngoals=3) + \
